@@ -15,11 +15,11 @@ Modelled, as coded (anchors in `sigma/rule/detection.py` unless noted):
   `SigmaString.to_plain(regex = "re" ∈ modifiers)`, keyword item without modifiers ⇒ bare value,
   else `{field|mod|…: value}`; `to_plain` of the value types of `sigma/types.py` (`valToPlain`).
 * `SigmaDetection.from_definition` / `to_plain` (`fromDef` / `toPlainDet`) including the type-set
-  tests, the removal of `None`, the OR-linked list-of-maps branch and the key-merging loop
-  (`mergeKV`) with its `|all` rules.
+  tests, the removal of `None`, the refusal of several AND-linked sub-detections, the OR-linked
+  list-of-maps branch and the key-merging loop (`mergeKV`) with its `|all` rules.
 * `SigmaDetections.from_dict` / `to_dict` (`loadDoc` / `serDoc`): condition scalar-or-list.
 * what the transformations of `sigma/processing/transformations/base.py` do to an item as far as
-  serialisation is concerned (`disable`, `resync`, `rename`, `split`).
+  serialisation is concerned (`disable`, `valueTouch`, `rename`, `split`).
 * rule dates (`sigma/rule/base.py` `get_rule_as_date`, `to_dict`): `parseDate`, `printDate`.
 
 Not modelled (trusted / covered by the correspondence sweep only): the remaining metadata fields
@@ -292,7 +292,9 @@ def isNone : PDef → Bool | .val .null => true | _ => false
 /-- the part of `SigmaDetection.to_plain` after the children have been converted and `None`
 results removed; `hasDet` = the children are detections -/
 def combine (hasDet linkOr : Bool) (ps : List PDef) : Except Err PDef :=
-  if hasDet then .ok (.list ps)
+  if hasDet then
+    -- several AND-linked sub-detections cannot be written: a list reads back OR-linked
+    (if !linkOr && decide (1 < ps.length) then .error .refused else .ok (.list ps))
   else
     match ps with
     | [] => .error .empty
@@ -382,22 +384,40 @@ def serDoc (d : Detections) : Except Err PDoc :=
 /-! ## what a transformation does to an item, as far as serialisation is concerned
 
 * `disable`: `DetectionItemTransformation.apply_detection` (every transformation that returns a
-  detection item: `r.disable_conversion_to_plain()`), `ValueTransformation.apply_detection` on an
-  item with modifiers, `FieldMappingTransformationBase.apply_detection` when the value list was
-  replaced (keyword → field mapping, mapped field references).
-* `resync`: `ValueTransformation.apply_detection` on an item without modifiers
-  (`r.original_value = r.value.copy()`).
+  detection item: `r.disable_conversion_to_plain()`), `FieldMappingTransformationBase.apply_detection`
+  when the value list was replaced (keyword → field mapping, mapped field references).
+* `valueTouch`: `ValueTransformation.apply_detection`: the item is disabled if it has modifiers or
+  if some new value is not *exactly* a `SigmaString` / `SigmaNumber` / `SigmaBool` / `SigmaNull`
+  (`plainType`); otherwise `original_value` is set to the new values (`resync`).
 * `rename`: one-to-one field mapping / prefix / suffix (`detection_item.field = mapping`, value
   list untouched ⇒ nothing else changes).
-* `split`: one-to-many field mapping: `dataclasses.replace(item, field=f, auto_modifiers=False)`
-  per target inside an OR-linked `SigmaDetection`; `__post_init__` of the copies sets
-  `original_value` to the *current* (modified) values while the modifiers stay. -/
+* `split`: one-to-many field mapping (`FieldMappingTransformationBase.apply_detection_item`): one copy
+  of the item per target inside an OR-linked `SigmaDetection`; a copy keeps the source item's
+  `original_value`, or is disabled when the source was, when field references in the values were
+  mapped (`replaced`) or when the source was a keyword item (wildcards were added). -/
 
 def disable (vs : List Val) (it : Item) : Item := { it with value := vs, orig := none }
 def resync (vs : List Val) (it : Item) : Item := { it with value := vs, orig := some vs }
 def rename (f : Str) (it : Item) : Item := { it with field := some f }
-def split (fs : List Str) (it : Item) : Det :=
-  .node (fs.map fun f => .item { it with field := some f, orig := some it.value }) true
+
+/-- `type(v) in (SigmaString, SigmaNumber, SigmaBool, SigmaNull)` (exact types: neither
+`SigmaCasedString` nor `SigmaTimestampPart`) -/
+def plainType : Val → Bool
+  | .str false _ => true
+  | .num _ => true
+  | .bool _ => true
+  | .null => true
+  | _ => false
+
+def valueTouch (vs : List Val) (it : Item) : Item :=
+  if it.mods.isEmpty && vs.all plainType then resync vs it else disable vs it
+
+def splitCopy (replaced : Bool) (vs : List Val) (it : Item) (f : Str) : Item :=
+  { it with field := some f, value := vs,
+            orig := if replaced || it.field.isNone then none else it.orig }
+
+def split (fs : List Str) (replaced : Bool) (vs : List Val) (it : Item) : Det :=
+  .node (fs.map fun f => .item (splitCopy replaced vs it f)) true
 
 /-! ## dates (`get_rule_as_date`, `date.isoformat()`) -/
 
